@@ -1,18 +1,26 @@
 package stats
 
-import "sync/atomic"
+import (
+	"sync"
+	"sync/atomic"
+)
 
 type mean struct {
+	mu    sync.Mutex // keeps count and sum from the same epoch when add races reset
 	count uint64
 	sum   uint64
 }
 
 func (m *mean) add(value uint64) {
+	m.mu.Lock()
+	defer m.mu.Unlock()
 	atomic.AddUint64(&m.count, 1)
 	atomic.AddUint64(&m.sum, value)
 }
 
 func (m *mean) get() float64 {
+	m.mu.Lock()
+	defer m.mu.Unlock()
 	count := atomic.LoadUint64(&m.count)
 	sum := atomic.LoadUint64(&m.sum)
 
@@ -24,6 +32,8 @@ func (m *mean) get() float64 {
 }
 
 func (m *mean) reset() {
+	m.mu.Lock()
+	defer m.mu.Unlock()
 	atomic.StoreUint64(&m.count, 0)
 	atomic.StoreUint64(&m.sum, 0)
 }
